@@ -86,53 +86,60 @@ def _solve_one(args):
     t = _TASKS[idx]
     t0 = time.time()
     s = z3.Solver()
-    s.set("timeout", int(timeout_s * 1000))
+    first = min(timeout_s, 8.0) if use_cvc5 else timeout_s
+    s.set("timeout", int(first * 1000))
     s.add(*t.hyps)
     s.add(z3.Not(t.clause))
     backend = "z3"
     status, model, detail = "unknown", None, ""
     signal.signal(signal.SIGALRM, _alarm)
-    signal.alarm(int(timeout_s) + 20)
-    try:
-        r = s.check()
-        status = str(r)
-        if r == z3.sat:
-            m = s.model()
-            model = _extract(m, t.inputs)
-            if nice_model:
-                # try to find a counterexample whose reals are multiples of 1/64 (exact in float64)
-                try:
-                    s.push()
-                    s.set("timeout", 5000)
-                    for c in t.inputs.values():
-                        if z3.is_real(c):
-                            s.add(z3.IsInt(c * 64), c <= 1 << 20, c >= -(1 << 20))
-                    if s.check() == z3.sat:
-                        model = _extract(s.model(), t.inputs)
-                        detail = "dyadic"
-                    s.pop()
-                except (z3.Z3Exception, _Timeout):
-                    pass
-        elif r == z3.unknown:
-            detail = s.reason_unknown()
-    except _Timeout:
-        status, detail = "unknown", "hard timeout"
-    except z3.Z3Exception as e:
-        status, detail = "unknown", f"z3 exception {e}"
-    finally:
-        signal.alarm(0)
+
+    def z3_round(budget):
+        nonlocal status, model, detail
+        signal.alarm(int(budget) + 20)
+        try:
+            s.set("timeout", int(budget * 1000))
+            r = s.check()
+            status = str(r)
+            if r == z3.sat:
+                m = s.model()
+                model = _extract(m, t.inputs)
+                if nice_model:
+                    # try to find a counterexample whose reals are multiples of 1/64 (exact in float64)
+                    try:
+                        s.push()
+                        s.set("timeout", 3000)
+                        for c in t.inputs.values():
+                            if z3.is_real(c):
+                                s.add(z3.IsInt(c * 64), c <= 1 << 20, c >= -(1 << 20))
+                        if s.check() == z3.sat:
+                            model = _extract(s.model(), t.inputs)
+                            detail = "dyadic"
+                        s.pop()
+                    except (z3.Z3Exception, _Timeout):
+                        pass
+            elif r == z3.unknown:
+                detail = s.reason_unknown()
+        except _Timeout:
+            status, detail = "unknown", "hard timeout"
+        except z3.Z3Exception as e:
+            status, detail = "unknown", f"z3 exception {e}"
+        finally:
+            signal.alarm(0)
+
+    z3_round(first)
     if status == "unknown" and use_cvc5:
         try:
             smt2 = s.to_smt2()
             r = _cvc5(smt2, timeout_s)
-            if r in ("sat", "unsat"):
-                # a cvc5 'sat' carries no model here: only 'unsat' is used as a verdict
-                if r == "unsat":
-                    status, backend = "unsat", "cvc5"
-                else:
-                    detail += " cvc5:sat(no model)"
+            if r == "unsat":
+                status, backend = "unsat", "cvc5"
+            elif r == "sat":
+                detail += " cvc5:sat(no model)"
         except Exception as e:  # pragma: no cover
             detail += f" cvc5 failed: {e}"
+        if status == "unknown" and timeout_s > first:
+            z3_round(timeout_s)
     return Result(t.name, status, model, time.time() - t0, backend, t.meta, t.want_sat, detail)
 
 
@@ -148,6 +155,6 @@ def discharge(tasks, timeout_s=60, procs=None, use_cvc5=True, nice_model=True):
         return [_solve_one(a) for a in args]
     ctx = mp.get_context("fork")
     with ctx.Pool(min(procs, len(_TASKS))) as pool:
-        out = pool.map(_solve_one, args, chunksize=max(1, len(args) // (procs * 8)))
+        out = pool.map(_solve_one, args, chunksize=1 if len(args) < 20000 else 4)
     _TASKS = []
     return out
